@@ -111,7 +111,13 @@ func compileBatches(in io.Reader, codec *dnsdata.Codec, destPath string, opts Co
 		batchSize = DefaultBatchSize
 	}
 
-	limiter := make(chan struct{}, opts.BatchNumParallel)
+	numParallel := opts.BatchNumParallel
+	if numParallel <= 0 {
+		// 0 means unlimited; an unbuffered limiter would block the reader
+		// before any batch goroutine is started
+		numParallel = 1 << 30
+	}
+	limiter := make(chan struct{}, numParallel)
 	defer close(limiter)
 
 	db, err = NewRDB(destPath)
